@@ -42,6 +42,8 @@ type Monitors struct {
 	confDatas map[string]*Proposal
 
 	appliedBy map[uint64]uint64 // index -> first node that applied it
+	// propEntry: proposal seq -> (index,term) entries carrying its first payload
+	propEntry map[int][][2]uint64
 }
 
 type readRec struct {
@@ -132,6 +134,7 @@ func (m *Monitors) init(s *Sim) {
 	m.neutral = map[uint64]int{}
 	m.confDatas = map[string]*Proposal{}
 	m.appliedBy = map[uint64]uint64{}
+	m.propEntry = map[int][][2]uint64{}
 	m.allSafe = true
 	for _, o := range s.W.Nodes {
 		if o.LeaseRead {
@@ -533,6 +536,11 @@ func (m *Monitors) newEntry(n *Node, post *raft.VerifState, idx uint64, e *pb.En
 	ownTermLeader := post.State == raft.StateLeader && post.Term == e.GetTerm()
 	// entries written by RawNode.Bootstrap are not proposals
 	bootEntry := s.W.BootPeers && idx <= uint64(len(s.W.Voters)) && e.GetTerm() == 1
+	if e.GetType() == pb.EntryNormal && len(data) > 0 {
+		if seq, k, ok := parseTag(data); ok && k == 0 {
+			m.propEntry[seq] = append(m.propEntry[seq], [2]uint64{idx, e.GetTerm()})
+		}
+	}
 	if m.On["C20"] && !bootEntry {
 		switch {
 		case e.GetType() == pb.EntryNormal && len(data) > 0:
@@ -1501,16 +1509,18 @@ func (m *Monitors) beforeReadIndex(n *Node, ctx string) {
 func (m *Monitors) c11ReadState(n *Node, rs raft.ReadState) {
 	s := m.s
 	s.Stats.inc("read.answered")
+	r := m.reads[string(rs.RequestCtx)]
+	if r != nil && r.Node == n.ID {
+		r.Answered++
+	}
 	if !m.On["C11"] || !m.allSafe {
 		return
 	}
-	r := m.reads[string(rs.RequestCtx)]
 	if r == nil || r.Node != n.ID {
 		m.viol([]string{"C11"}, "read_ctx_is_own", "c11.foreign_ctx",
 			"node %d reports a read state for context %q it never requested", n.ID, rs.RequestCtx)
 		return
 	}
-	r.Answered++
 	if rs.Index < r.G {
 		sig := "c11.index_below_G"
 		m.viol([]string{"C11"}, "read_index_ge_commit_at_issue", sig,
